@@ -64,16 +64,24 @@ def execute_and_validate(name, raw_path, layout_seed=None, nworkers=None, timeou
 
 
 CHUNK_BYTES = 12 * 1024 * 1024
+CHUNK_CASES = 4000
 
 
 def chunk_file(path, d):
-    """TLC reads all cases of a run into memory: large batches are validated in pieces of about CHUNK_BYTES"""
-    if os.path.getsize(path) <= CHUNK_BYTES * 3 // 2:
+    """TLC reads all cases of a run into memory: large batches are validated in pieces of about CHUNK_BYTES and at most
+    CHUNK_CASES cases.  The second bound matters for soundness of the tooling: every case is one initial state, TLC keeps 8192
+    queued states in memory and writes the rest to disk with ONE BYTE PER CHARACTER, so a state that holds text outside ASCII
+    and goes through the disk queue comes back changed (seen as false alarms of C10 thorough before MCScan was changed)."""
+    with open(path, encoding="utf-8") as f:
+        nlines = sum(1 for _ in f)
+    if os.path.getsize(path) <= CHUNK_BYTES * 3 // 2 and nlines <= CHUNK_CASES:
         return [path]
-    out, cur, size = [], None, 0
+    out, cur, size, cnt = [], None, 0, 0
     with open(path, encoding="utf-8") as f:
         for line in f:
-            if cur is None or size + len(line) > CHUNK_BYTES:
+            cnt += 1
+            if cur is None or size + len(line) > CHUNK_BYTES or cnt > CHUNK_CASES:
+                cnt = 1
                 if cur:
                     cur.close()
                 out.append(os.path.join(d, "traces_chunk_%d.ndjson" % len(out)))
